@@ -169,7 +169,7 @@ structure Ob (s : Sys) (x : Bool) (tid la ra : Nat) (uc nomOn : Bool) (ts : Nat)
   link : Link s x la ra
   pend : PendFor s x tid la ra uc ts
   slot : Slot s x la ra nomOn
-  young : s.now - ts ≤ 2000000000
+  young : s.now - ts < maxBindingRequestTimeout
 
 /-- datagram `d` is the Binding request of that transaction … -/
 def ReqD (s : Sys) (x : Bool) (tid la ra : Nat) (uc : Bool) (d : Dgram) : Prop :=
@@ -229,7 +229,7 @@ theorem Ob.keep {s s' : Sys} (h : SysOK nat blocked SLA SLB SR liteA liteB T0 H 
     · exact ⟨pd, by rw [e]; exact h1, h2⟩
     · by_cases hxy : x = y
       · subst hxy
-        refine ⟨pd, k.pend tid pd h1 (young_lt (by rw [h2.2.2.2.2.2]; exact hob.young)) ?_, h2⟩
+        refine ⟨pd, k.pend tid pd h1 (by rw [h2.2.2.2.2.2]; exact hob.young) ?_, h2⟩
         split
         · rename_i hc
           intro e
@@ -328,7 +328,7 @@ theorem hop_resp {s s' : Sys} (h : SysOK nat blocked SLA SLB SR liteA liteB T0 H
     by_cases hv : m.method = 1 ∧ m.key = some (s.agent x).remotePwd
     · suffices hg : Goal c s' x uc nomOn from ⟨Or.inl hg, fun _ _ => hg⟩
       obtain ⟨v1, v2, v3⟩ := step_response_validates h.time0 h.timeH (h.good x) g1 hc hv.1 hv.2 g2 (by rw [ht]; exact hpd)
-        (young_lt (by rw [p6]; exact hob.young)) p3 p2 p1 g3
+        (by rw [p6]; exact hob.young) p3 p2 p1 g3
       rw [← hst] at v1 v2 v3
       refine ⟨v1, fun hcond => ?_⟩
       have hrole := h.paired.role x
@@ -412,7 +412,7 @@ theorem hop_req {s s' : Sys} (h : SysOK nat blocked SLA SLB SR liteA liteB T0 H 
         refine ⟨mt.tid, ⟨he.net.link hob.link.mirror, ⟨_, f7, rfl, rfl, rfl, rfl, rfl, ?_⟩, ⟨l', rc, q, f1, f2, f3, fun _ => Or.inl f4⟩, ?_⟩,
           _, by rw [hfl]; exact List.mem_append_right _ (mem_dgramsOf_of_dgram f5), rfl, rfl, mt, rfl, f6.congr (he.ids (!x)), rfl⟩
         · simp [pendOf, he.now]
-        · simp
+        · simp [maxBindingRequestTimeout]
 
 end
 
